@@ -171,3 +171,71 @@ def support(t, pos, env: E.Env, nz: Normalizer) -> set:
 
     walk_rf(r)
     return out
+
+
+# --------------------------------------------------------------- definedness
+def definedness(t, pos, env: E.Env, nz: Normalizer, excluded=None) -> list:
+    """Partial operations of the scalar `t @ pos` whose argument is not provably in
+    the operation's domain under the admissible-domain facts.  `excluded(kind, den)`
+    may exempt a site (the model's own 0/0)."""
+    sc = E.at(t, pos, env)
+    problems = []
+    seen = set()
+
+    def walk(x):
+        if not E.is_term(x) or x in seen:
+            return
+        seen.add(x)
+        k = x[0]
+        if k == "div":
+            den = nz.rf(x[2])
+            s = nz.facts.sign(den)
+            if s not in (">0", "<0"):
+                if not (excluded and excluded(x[2], den)):
+                    problems.append(("div", E.fmt(x[2], 160), s))
+        elif k == "fn" and x[1] == "log":
+            arg = nz.rf(x[2])
+            s = nz.facts.sign(arg)
+            lo, hi = nz.facts.interval(arg)
+            if not (s == ">0" or (lo is not None and lo > 0)):
+                problems.append(("log", E.fmt(x[2], 160), s))
+        elif k == "pow":
+            e = nz.rf(x[2]).const()
+            b = nz.rf(x[1])
+            sb = nz.facts.sign(b)
+            if e is not None and e.denominator == 1:
+                if e < 0 and sb not in (">0", "<0"):
+                    problems.append(("pow-neg", E.fmt(x[1], 160), sb))
+            else:
+                if sb not in (">0", ">=0", "0"):
+                    problems.append(("pow-frac", E.fmt(x[1], 160), sb))
+        for y in x[1:]:
+            if E.is_term(y):
+                walk(y)
+            elif isinstance(y, tuple):
+                for z in y:
+                    walk(z)
+
+    walk(sc)
+    return problems
+
+
+def model_zero_over_zero(den_term, den_rf) -> bool:
+    """The two 0/0 sites the model itself has (and the properties exclude): the
+    flow-weighted speed at zero total inflow (sum over In(U) of last-segment flows)
+    and the downstream density at zero total first-segment density (sum over
+    Out(D) of first-segment densities)."""
+    if den_term[0] != "sumfam":
+        return False
+    dom = den_term[1]
+    body = den_term[2]
+    syms = symbols(body)
+    if dom == "In(U)":
+        names = {(s[1], s[3]) for s in syms if s[0] == "sa"}
+        return names <= {("rho", ("last", 0)), ("v", ("last", 0))} and all(
+            s[0] == "sa" or s[1].endswith(".lam") for s in syms)
+    if dom == "Out(D)":
+        return all(s[0] == "sa" and s[1] == "rho" and s[3] == ("first", 0) for s in syms)
+    if dom == "J":  # primitive-level families
+        return True
+    return False
